@@ -102,6 +102,19 @@ class Number {
 #endif
 };
 
+#if ARDUINOJSON_ENABLE_NAN || ARDUINOJSON_ENABLE_INFINITY
+// Compares a string with a lowercase word, ignoring the case of ASCII letters
+inline bool equalsIgnoreCase(const char* s, const char* word) {
+  while (*word) {
+    if ((*s | 0x20) != *word)
+      return false;
+    s++;
+    word++;
+  }
+  return *s == '\0';
+}
+#endif
+
 inline Number parseNumber(const char* s) {
   using traits = FloatTraits<JsonFloat>;
   using mantissa_t = largest_type<traits::mantissa_type, JsonUInt>;
@@ -122,12 +135,16 @@ inline Number parseNumber(const char* s) {
 
 #if ARDUINOJSON_ENABLE_NAN
   if (*s == 'n' || *s == 'N') {
+    if (!equalsIgnoreCase(s, "nan"))
+      return Number();
     return Number(traits::nan());
   }
 #endif
 
 #if ARDUINOJSON_ENABLE_INFINITY
   if (*s == 'i' || *s == 'I') {
+    if (!equalsIgnoreCase(s, "inf") && !equalsIgnoreCase(s, "infinity"))
+      return Number();
     return Number(is_negative ? -traits::inf() : traits::inf());
   }
 #endif
